@@ -4,6 +4,7 @@ import (
 	"crypto/sha256"
 	"encoding/json"
 	"fmt"
+	"github.com/btcsuite/btcwallet/chain"
 	"os"
 	"strings"
 	"time"
@@ -45,6 +46,12 @@ const (
 	// connects BEFORE the backend has answered the start-up rescan (the wallet is still behind:
 	// the notification cannot be applied yet and must leave nothing behind)
 	stOfflineLate c15Step = "offline-extend2+block-during-rescan"
+	// rescan notifications (progress, then finished) for the block BELOW the tip: a rescan
+	// over old blocks (import) reports them; they must not move the tip
+	stRescanBelow c15Step = "rescan-ntfns-below-tip"
+	// the backend disconnects two blocks but only the notification for the lower one arrives
+	// (the one for the tip was lost): the wallet must still end at the backend's tip
+	stDisc2Lost c15Step = "disc2-first-notification-lost"
 )
 
 type c15Job struct {
@@ -322,6 +329,25 @@ func c15Exec(worker int, j c15Job, window int, fail func(sig, msg string)) (eval
 			}
 			b := c.NewBlock(c.Tip.Prev, nextBranch()+"-sibling", nil)
 			s.NotifyDisconnected(b)
+		case stRescanBelow:
+			if c.Tip.Height == 0 {
+				applied = false
+				break
+			}
+			pb := c.Tip.Prev
+			ph := pb.Hash
+			s.Feed(&chain.RescanProgress{Hash: ph, Height: pb.Height, Time: pb.Header.Timestamp})
+			s.Feed(&chain.RescanFinished{Hash: &ph, Height: pb.Height, Time: pb.Header.Timestamp})
+			s.Quiesce()
+		case stDisc2Lost:
+			if c.Tip.Height < 2 || !canWalkBack(c.Tip.Height, 2) {
+				applied = false
+				break
+			}
+			lower := c.Tip.Prev
+			c.Tip = lower.Prev
+			olderDisc, lastDisc = nil, lower
+			s.NotifyDisconnected(lower)
 		case stRestart:
 			if !canWalkBack(c.Tip.Height, 0) {
 				applied = false
@@ -430,15 +456,16 @@ func runC15(args []string) {
 		run.Finish(cov)
 		return
 	}
-	online := []c15Step{stExtEmpty, stExtFund, stExtSpend, stExtRemine, stDisc, stDupDisc, stDupOlder, stStaleAbove, stStaleSib}
+	online := []c15Step{stExtEmpty, stExtFund, stExtSpend, stExtRemine, stDisc, stDupDisc, stDupOlder, stStaleAbove, stStaleSib, stRescanBelow, stDisc2Lost}
 	offline := []c15Step{stRestart, stOffline1, stOfflineRe1, stOfflineRe2, stOfflineAll, stOfflineLate}
 	depth := 4
 	styles := []int{0, 1, 2}
 	alpha := append(append([]c15Step{}, online...), offline...)
+	rare := map[c15Step]bool{stStaleAbove: true, stStaleSib: true, stRescanBelow: true, stDisc2Lost: true, stDupOlder: true, stOfflineLate: true}
 	if run.Thorough() {
 		depth = 5
 	}
-	evals, execs, nontrivial := 0, 0, 0
+	evals, execs, nontrivial, nviol := 0, 0, 0, 0
 	obsSet := map[string]bool{}
 	var samples []string
 	idx := 0
@@ -468,8 +495,15 @@ func runC15(args []string) {
 					fmt.Fprintln(os.Stderr, "JOB", j.Text)
 				}
 				n, obs := c15Exec(0, j, window, func(sig, msg string) {
+					nviol++
 					run.Violation(sig, msg, map[string]interface{}{"kind": "c15", "job": j, "window": window})
 				})
+				if nviol >= 60 {
+					// the verdict is settled (each stuck wallet costs a watchdog period): this
+					// worker stops, the run is reported as not exhaustive
+					complete = false
+					return
+				}
 				evals += n
 				execs++
 				obsSet[obs] = true
@@ -506,6 +540,18 @@ func runC15(args []string) {
 			}
 			if s == stOfflineAll && len(prefix)+premined < 3 {
 				continue
+			}
+			// quick tier: at most one of the rarer notifications per sequence
+			if !run.Thorough() && rare[s] {
+				nr := 0
+				for _, p := range prefix {
+					if rare[p] {
+						nr++
+					}
+				}
+				if nr >= 1 {
+					continue
+				}
 			}
 			// at most two offline steps per sequence (each costs a full restart)
 			off := 0
